@@ -131,6 +131,14 @@ def scan(state, groups, tid):
             power-law fit to the first nodes outside the boundary"""
             x, y = rr[::step], d[::step]
             if not vac:
+                # a density exponent close to the geometry index leaves an integrable power-law singularity at the origin
+                # (planar, omega = 0.8: rho ~ r^-0.7): that head is integrated from a power-law fit to the first nodes
+                m = 6
+                yy = np.abs(y[1:m + 1])
+                if np.all(yy > 0):
+                    a, lnA = np.polyfit(np.log(x[1:m + 1]), np.log(yy), 1)
+                    if -0.98 < a < -0.05:
+                        return math.exp(lnA) * x[m] ** (a + 1) / (a + 1) + simpson(y[m:], x=x[m:])
                 return simpson(y, x=x)
             i0 = int(np.searchsorted(x, rvv)) + 1          # first node safely outside the boundary
             i1 = i0 + 6
